@@ -22,3 +22,5 @@ def run(ctx, rep):
     from ..rules import more5
     more5.rule_sched_busy(mod, rep)
     more5.rule_await_pure(mod, rep)
+    from ..rules import more6
+    more6.rule_barrier_all(mod, rep)
